@@ -59,14 +59,18 @@ struct Running {
     waker: Arc<CountWaker>,
 }
 
-fn start_run(t: Token) -> Running {
+/// Returns None if the run future completed at once (a token of a runner that was shut down
+/// stops immediately — its slot is free again).
+fn start_run(t: Token) -> Option<Running> {
     let pipe = Pipe::new(Rng::new(2), Behaviour::ideal());
     let log = Arc::new(std::sync::Mutex::new(crate::handler::HLog::default()));
     let h = crate::handler::make_handler(vec![crate::handler::Script { ops: vec![], propagate: true, status: fastcgi_server::ExitStatus::SUCCESS }], log);
     let fut: Pin<Box<dyn Future<Output = ()>>> = Box::pin(t.run(Reader(pipe.clone()), Writer(pipe.clone()), h));
     let mut r = Running { fut, pipe, waker: CountWaker::new() };
-    let _ = poll_running(&mut r); // suspends reading the first request
-    r
+    if poll_running(&mut r) {
+        return None;
+    }
+    Some(r) // suspended reading the first request
 }
 
 fn poll_running(r: &mut Running) -> bool {
@@ -86,6 +90,10 @@ fn history(c: &mut Case) {
     }
     drop(base);
     let runners = runners; // fixed from here on: futures borrow from it
+    // one more clone that may be shut down in the middle of the history (its tokens stay alive);
+    // requests on it are polled once and dropped if they have to wait, so nothing borrows it
+    let mut victim: Option<Runner> = Some(runners[0].clone());
+    let mut shutdown_futs = Vec::new();
     let mut pending: Vec<Pending> = Vec::new();
     let mut tokens: Vec<Token> = Vec::new();
     let mut running: Vec<Running> = Vec::new();
@@ -96,9 +104,37 @@ fn history(c: &mut Case) {
         c.violation(sig, Json::obj().with("limit", limit).with("runners", n_runners).with("problem", msg).with("history", trace.to_vec()));
     };
     for step in 0..n_ops {
-        let op = c.rng.below(10);
+        let op = c.rng.below(12);
         hist = mix(hist, op as u64);
         match op {
+            10 if victim.is_some() => {
+                let free_before = limit - (tokens.len() + running.len());
+                let got = {
+                    let v = victim.as_ref().expect("victim");
+                    let mut f = Box::pin(v.get_token());
+                    let w = Waker::from(CountWaker::new());
+                    let mut cx = Context::from_waker(&w);
+                    match f.as_mut().poll(&mut cx) {
+                        Poll::Ready(t) => Some(t),
+                        Poll::Pending => None,
+                    }
+                };
+                trace.push(format!("get_token(clone that will be shut down) -> {}", if got.is_some() { "Ready" } else { "Pending, request dropped" }));
+                if let Some(t) = got {
+                    if free_before == 0 {
+                        fail(c, "token-over-limit", format!("get_token completed with {} live tokens / running connections and limit {limit}", tokens.len() + running.len()), &trace);
+                        return;
+                    }
+                    tokens.push(t);
+                }
+            }
+            11 if victim.is_some() && c.rng.chance(1, 3) => {
+                trace.push(format!("shutdown(clone) with {} live tokens in total", tokens.len() + running.len()));
+                if let Some(v) = victim.take() {
+                    shutdown_futs.push(v.shutdown());
+                }
+                c.l.count("runner_shutdowns_mid_history");
+            }
             0..=2 => {
                 // new request on some runner + first poll
                 let ri = c.rng.below(runners.len());
@@ -178,7 +214,11 @@ fn history(c: &mut Case) {
                 let t = tokens.remove(j);
                 trace.push(format!("run(token #{j}) on an open connection"));
                 match guarded(|| start_run(t)) {
-                    Ok(r) => running.push(r),
+                    Ok(Some(r)) => running.push(r),
+                    Ok(None) => {
+                        trace.push("  (the run returned at once: the token's runner had been shut down)".into());
+                        c.l.count("runs_stopped_at_once_after_shutdown");
+                    }
                     Err(p) => {
                         fail(c, &crate::ev::panic_signature(&p), p, &trace);
                         return;
@@ -372,6 +412,7 @@ pub fn run(ctx: &Ctx, evidence: Option<&PathBuf>) -> i32 {
     ctx.gate("cancellations_of_notified_waiters", 100);
     ctx.gate("tokens_run_to_completion", 100);
     ctx.gate("runs_started_on_open_connections", 100);
+    ctx.gate("runner_shutdowns_mid_history", 100);
     ctx.gate("open_connection_runs_completed", 50);
     ctx.gate("open_connection_runs_dropped", 50);
     ctx.gate("token_drops_during_unwinding", 100);
@@ -382,7 +423,7 @@ pub fn run(ctx: &Ctx, evidence: Option<&PathBuf>) -> i32 {
     ctx.gate("thread_acquisitions_that_waited", 10);
     ctx.finish(
         "exploration",
-        "Run A: limits 1..5, 1..3 runners (original + clones of clones), random histories of 10..70 operations: get_token on any runner (+ first poll), re-poll a queued request, drop a queued request (also one that has already been woken), drop a token, run a token to completion on an EOF transport, hand a token to Token::run on a connection that stays open (the slot stays taken until the peer closes and the future completes, or the future is dropped), drop a token during unwinding; every request has its own counting waker. \
+        "Run A: limits 1..5, 1..3 runners (original + clones of clones), random histories of 10..70 operations: get_token on any runner (+ first poll), re-poll a queued request, drop a queued request (also one that has already been woken), drop a token, run a token to completion on an EOF transport, hand a token to Token::run on a connection that stays open (the slot stays taken until the peer closes and the future completes, or the future is dropped), drop a token during unwinding, take tokens through a further clone and shut that clone down mid-history (its tokens stay alive); every request has its own counting waker. \
          Oracle after EVERY operation: a get_token never completes while live == limit; a first poll with a free slot and no earlier request queued is Ready; free > 0 and queued != {} => some queued request holds an un-consumed wake; at sampled quiescent points (every woken future re-polled until no wake is outstanding): free == 0 or queue empty. \
          Run B: 12 threads x 8000 iterations on one limit (runner and clones), acquire / hold for a few yields / drop, sometimes poll-once-and-cancel; live counter bumped after acquiring and decremented before dropping (observed <= true), observed > limit = violation; quiescence detector (all threads parked, no wake outstanding) = stranded slot. \
          distinct_nontrivial = distinct (operation history, limit, #runners) (set).",
